@@ -226,6 +226,16 @@ func CheckC03(c *Ctx) {
 			}
 			w.Count("modified-cover-cases")
 		})
+		{
+			list := cornerAssigns(api)
+			c.Parallel("packed-corners-"+v.Name, len(list), 64, func(w *Worker, i int) {
+				o, steps := buildOrViolate(c, w, api, list[i], i%NStyles)
+				if o != nil {
+					v3Check(c, w, api, m, o, list[i], steps, nil)
+				}
+				w.Count("packed-corner-objects")
+			})
+		}
 		// (2b) COMPLETE: every assignment with at most 3 (thorough: 4) optional metrics defined x all their values
 		{
 			subsets := gen.SparseSubsets(v, c.Pick(3, 4))
@@ -603,6 +613,13 @@ func CheckC04(c *Ctx) {
 			st := styleFor(i)
 			v4Check(c, w, api, a, st, stats, i%1500007 == 0)
 			w.counts["realised:"+[]string{"through-base", "through-Modified", "mixed"}[mode]]++
+		})
+	}
+	{
+		list := cornerAssigns(api)
+		c.Parallel("packed-corners", len(list), 64, func(w *Worker, i int) {
+			v4Check(c, w, api, list[i], i%NStyles, stats, false)
+			w.Count("packed-corner-objects")
 		})
 	}
 	{
